@@ -385,3 +385,184 @@ Print Assumptions C11_served_addresses_example.
 Example C11_draw_key_satisfiable : forall u w, u <= maxU32 -> rk_pos (draw_key u w) = dk_pos (u, w).
 Proof. exact draw_key_pos. Qed.
 Print Assumptions C11_draw_key_satisfiable.
+
+(* one Wrs per pick versus Go's one Wrs per target.  db.AdditionalSectionForRecords uses ONE Wrs{MaxAnswers: 1} per
+   NS / MX target for both families ([additional] above: rows of a family are added only if the family is wanted,
+   the AAAA record is emitted before the A record); [realise] runs one Wrs per IPick, i.e. per family.  They agree:
+   the realised AAAA pick and A pick of a target t (candidates c6 / c4 with draws d6 / d4) ARE what [additional]
+   returns on the target's rows, so C11_additional_max_one speaks about the realised records verbatim *)
+Theorem C11_served_target_is_wrs_additional :
+  forall K klt kpos (keyof : N -> N -> K) d6 d4 t qc c6 c4 (want4 want6 : bool) r6 r4 wt,
+  Model.Wrs.additional klt kpos want4 want6 (pick_rows K keyof d6 28 c6 ++ pick_rows K keyof d4 1 c4) = (r6, r4, wt) ->
+  (if want6 then realise_pick K klt kpos keyof 1 d6 t 28 qc c6 else nil) =
+    map (fun p : payload => mkRR t 28 qc (cand_ttl (snd p)) (cand_addr (snd p))) r6 /\
+  (if want4 then realise_pick K klt kpos keyof 1 d4 t 1 qc c4 else nil) =
+    map (fun p : payload => mkRR t 1 qc (cand_ttl (snd p)) (cand_addr (snd p))) r4.
+Proof. exact pick_pair_is_additional. Qed.
+Print Assumptions C11_served_target_is_wrs_additional.
+
+(* the range hypothesis of C11_served_addresses_sound is needed - finding F18 inside the served answer: ANY a.z.
+   of C11_served_addresses_example (e_x1: candidates of weights 1, 0, 2, 5, max answer 2) with the draw 2^32-1 for
+   the weight-0 candidate: its key is Pow(1, +Inf) = 1, the largest, and the realised answer e_y18 holds the
+   weight-0 address 10.0.0.2 (and 10.0.0.4) *)
+Theorem C11_served_zero_weight_refuted :
+  realise N rk_lt rk_pos draw_key e_dr18 2 e_x1 = e_y18 /\
+  In (mkRec ((97 :: nil) :: (122 :: nil) :: nil) false None 1 10 0 (10 :: 0 :: 0 :: 2 :: nil)) e_recs /\
+  In (mkRR (q_name e_q1) 1 1 10 (10 :: 0 :: 0 :: 2 :: nil)) (c_an e_y18) /\
+  (forall s i j, e_dr18 s i j <= maxU32).
+Proof. exact served_zero_weight_refuted. Qed.
+Print Assumptions C11_served_zero_weight_refuted.
+
+(* COMPLETENESS of the additional section of a referral (the glue), Proofs/LinkWrsGlue.v: C01_referral_glue gives the
+   glue exactly (a fold of [glue_step] over the NS targets); realised with max 1 per family and target it holds, for
+   every NS record r of the cut and each family ty, EXACTLY min(1, number of positive weights) address records of the
+   target: one iff the target has a declared visible non-wildcard address record of that family with positive weight
+   ([has_pos_addr L recs t ty] = existsb (0 <? weight) (addr_records L recs t ty)), none otherwise.  [kcount t ty l]:
+   the number of records of l with owner t and type ty.  Guards: those of C01_referral_glue *)
+From DnsV Require Import Proofs.LinkWrsGlue Proofs.LinkWrsGlueExample.
+
+Theorem C11_has_pos_addr_meaning : forall L recs t ty,
+  has_pos_addr L recs t ty = true <-> exists r, In r (addr_records L recs t ty) /\ 0 < r_weight r.
+Proof. exact has_pos_addr_spec. Qed.
+Print Assumptions C11_has_pos_addr_meaning.
+
+Theorem C11_referral_glue_exact :
+  forall K klt kpos, key_order K klt kpos ->
+  forall keyof : N -> N -> K, (forall u w, u <= maxU32 -> kpos (keyof u w) = dk_pos (u, w)) ->
+  forall b recs L, wf_recs recs -> List.Forall wf_ns_rdata recs ->
+  length L = 2%nat -> b <> RDB2 -> wf_view L recs = true -> forall q n z ecs max x (dr : draws),
+  wf_name n -> nlen (pack n) <= 255 -> lower_bytes (q_name q) = pack n ->
+  (q_edns q = None \/ q_edns q = Some 0) -> q_type q <> 43 ->
+  zone_cut L recs n = Some z -> authoritative L recs z = false ->
+  serve b (store_v1 recs) q (LocOk L) ecs max = OReply x ->
+  (forall s i j, 0 < dr s i j < maxU32) ->
+  forall r ty, In r (of_type 2 (own_records L recs z)) -> ty = 1 \/ ty = 28 ->
+  kcount (r_rdata r) ty (c_ex (realise K klt kpos keyof dr max x)) =
+    if has_pos_addr L recs (r_rdata r) ty then 1%nat else 0%nat.
+Proof. intros K klt kpos (H1 & H2 & H3). exact (referral_glue_exact_v1 K klt kpos H1 H2 H3). Qed.
+Print Assumptions C11_referral_glue_exact.
+
+Theorem C11_referral_glue_exact_v2 :
+  forall K klt kpos, key_order K klt kpos ->
+  forall keyof : N -> N -> K, (forall u w, u <= maxU32 -> kpos (keyof u w) = dk_pos (u, w)) ->
+  forall recs L, wf_recs recs -> List.Forall wf_ns_rdata recs ->
+  length L = 2%nat -> wf_view L recs = true -> forall q n z ecs max x (dr : draws),
+  wf_name n -> nlen (pack n) <= 255 -> lower_bytes (q_name q) = pack n ->
+  (q_edns q = None \/ q_edns q = Some 0) -> q_type q <> 43 ->
+  zone_cut L recs n = Some z -> authoritative L recs z = false ->
+  serve RDB2 (store_v2 recs) q (LocOk L) ecs max = OReply x ->
+  (forall s i j, 0 < dr s i j < maxU32) ->
+  forall r ty, In r (of_type 2 (own_records L recs z)) -> ty = 1 \/ ty = 28 ->
+  kcount (r_rdata r) ty (c_ex (realise K klt kpos keyof dr max x)) =
+    if has_pos_addr L recs (r_rdata r) ty then 1%nat else 0%nat.
+Proof. intros K klt kpos (H1 & H2 & H3). exact (referral_glue_exact_v2 K klt kpos H1 H2 H3). Qed.
+Print Assumptions C11_referral_glue_exact_v2.
+
+(* non-vacuity: z. delegates s.z. to a.s.z. (A of weight 1, AAAA of weight 0) and to b.o. (no address); A w.s.z.
+   is a referral whose realised additional section g_y holds the one A record of a.s.z. and nothing else
+   (values in Proofs/LinkWrsGlueExample.v) *)
+Example C11_referral_glue_example :
+  wf_view e_L g_recs = true /\ lower_bytes (q_name g_q) = pack g_n /\
+  zone_cut e_L g_recs g_n = Some g_z /\ authoritative e_L g_recs g_z = false /\
+  (forall x, serve CDB (store_v1 g_recs) g_q (LocOk e_L) None 2 = OReply x ->
+     realise N rk_lt rk_pos draw_key e_dr 2 x = g_y) /\
+  has_pos_addr e_L g_recs (1 :: 97 :: 1 :: 115 :: 1 :: 122 :: 0 :: nil) 1 = true /\
+  has_pos_addr e_L g_recs (1 :: 97 :: 1 :: 115 :: 1 :: 122 :: 0 :: nil) 28 = false /\
+  has_pos_addr e_L g_recs (1 :: 98 :: 1 :: 111 :: 0 :: nil) 1 = false /\
+  kcount (1 :: 97 :: 1 :: 115 :: 1 :: 122 :: 0 :: nil) 1 (c_ex g_y) = 1%nat /\
+  kcount (1 :: 97 :: 1 :: 115 :: 1 :: 122 :: 0 :: nil) 28 (c_ex g_y) = 0%nat /\
+  kcount (1 :: 98 :: 1 :: 111 :: 0 :: nil) 1 (c_ex g_y) = 0%nat.
+Proof. exact referral_glue_example. Qed.
+Print Assumptions C11_referral_glue_example.
+
+(* THE WHOLE ADDITIONAL-SECTION LOOP (Proofs/LinkWrsAdditional.v).  Model/Serve's loop over the NS / MX targets, as C01
+   characterises it over the declared records ([glue_step]: want4 / want6 from HasRecord on the message built so far,
+   the candidates of the wanted families, one pick per family), realised, IS [additional_section] above - C11's model of
+   db.AdditionalSectionForRecords (one Wrs{MaxAnswers: 1} per target, want4 / want6 from HasRecord on the message as a
+   list of (name, type)) - so C11_additional_section_one_per_family and C11_additional_max_one apply to the realised
+   additional section verbatim.  Vocabulary: owner names are numbers in Model/Wrs.v: [code] is ANY injective coding
+   (one exists: C11_name_code_injective); [msg_code code m0]: the (name, type) list of the message before the loop;
+   [trows ... m0 ts]: for every target of ts in order, (code of the target, its rows: the AAAA candidates, then the A
+   candidates glue_step collects - none for a family not wanted - keyed by the draws [realise] uses: position of
+   the pick in the additional section, index of the candidate); [gtriples ... m0 ts]: (target, family, payload) of the
+   realised records; [triple_rr qc]: such a triple as a record (owner, type, class qc, TTL and address of the
+   candidate); [enc code]: the triple with its name coded. *)
+From DnsV Require Import Proofs.Glue Proofs.LinkWrsAdditional.
+
+Theorem C11_name_code_injective : forall a b : bytes, gcode a = gcode b -> a = b.
+Proof. exact gcode_inj. Qed.
+Print Assumptions C11_name_code_injective.
+
+(* core: any response whose additional section is the glue fold over targets ts of a message (an, ns, no additional
+   records yet) - C01_referral_glue for referrals *)
+Theorem C11_served_additional_is_wrs_additional_section :
+  forall K klt kpos, key_order K klt kpos ->
+  forall keyof : N -> N -> K, (forall u w, u <= maxU32 -> kpos (keyof u w) = dk_pos (u, w)) ->
+  forall code : bytes -> N, (forall a b, code a = code b -> a = b) ->
+  forall recs L qc an ns ts (x : response) (dr : draws) max,
+  rs_ex x = m_ex (fold_left (glue_step recs L qc) ts (mkMsg an ns nil)) ->
+  (forall s i j, 0 < dr s i j < maxU32) ->
+  let m0 := mkMsg an ns nil in
+  let tr := gtriples recs L qc K klt kpos keyof (dr sec_ex) m0 ts in
+  c_ex (realise K klt kpos keyof dr max x) = map (triple_rr qc) tr /\
+  exists wt mN',
+    Model.Wrs.additional_section klt kpos (msg_code code m0) (trows recs L qc K keyof code (dr sec_ex) m0 ts) =
+      (map (enc code) tr, wt, mN').
+Proof. intros K klt kpos (H1 & H2 & H3). exact (realised_additional_is_wrs K klt kpos H1 H2 H3). Qed.
+Print Assumptions C11_served_additional_is_wrs_additional_section.
+
+(* composed with C01_referral_glue: the realised glue of a referral is what [additional_section] returns for the NS
+   targets of the cut *)
+Theorem C11_referral_additional_is_wrs_additional_section :
+  forall K klt kpos, key_order K klt kpos ->
+  forall keyof : N -> N -> K, (forall u w, u <= maxU32 -> kpos (keyof u w) = dk_pos (u, w)) ->
+  forall code : bytes -> N, (forall a b, code a = code b -> a = b) ->
+  forall b recs L, wf_recs recs -> List.Forall wf_ns_rdata recs ->
+  length L = 2%nat -> b <> RDB2 -> wf_view L recs = true -> forall q n z ecs max x (dr : draws),
+  wf_name n -> nlen (pack n) <= 255 -> lower_bytes (q_name q) = pack n ->
+  (q_edns q = None \/ q_edns q = Some 0) -> q_type q <> 43 ->
+  zone_cut L recs n = Some z -> authoritative L recs z = false ->
+  serve b (store_v1 recs) q (LocOk L) ecs max = OReply x ->
+  (forall s i j, 0 < dr s i j < maxU32) ->
+  let m0 := mkMsg nil (map (ns_item (pack z) (q_class q)) (ns_of_cut recs L z)) nil in
+  let ts := map r_rdata (ns_of_cut recs L z) in
+  let tr := gtriples recs L (q_class q) K klt kpos keyof (dr sec_ex) m0 ts in
+  c_ex (realise K klt kpos keyof dr max x) = map (triple_rr (q_class q)) tr /\
+  exists wt mN',
+    Model.Wrs.additional_section klt kpos (msg_code code m0) (trows recs L (q_class q) K keyof code (dr sec_ex) m0 ts) =
+      (map (enc code) tr, wt, mN').
+Proof. intros K klt kpos (H1 & H2 & H3). exact (referral_additional_is_wrs_v1 K klt kpos H1 H2 H3). Qed.
+Print Assumptions C11_referral_additional_is_wrs_additional_section.
+
+(* the adapter behind it: the two HasRecord views agree before the loop and after every step
+   ([agree code m msgN]: HasRecord on the coded list = HasRecord on Model/Serve's message, for every name and type) *)
+Theorem C11_additional_loop_simulation :
+  forall recs L qc K klt kpos, key_order K klt kpos ->
+  forall keyof : N -> N -> K, (forall u w, u <= maxU32 -> kpos (keyof u w) = dk_pos (u, w)) ->
+  forall code : bytes -> N, (forall a b, code a = code b -> a = b) ->
+  forall ds : nat -> nat -> N, (forall i j, 0 < ds i j < maxU32) ->
+  forall ts m msgN, agree code m msgN ->
+  exists wt mN',
+    Model.Wrs.additional_section klt kpos msgN (trows recs L qc K keyof code ds m ts) =
+      (map (enc code) (gtriples recs L qc K klt kpos keyof ds m ts), wt, mN') /\
+    agree code (fold_left (glue_step recs L qc) ts m) mN'.
+Proof. intros recs L qc K klt kpos (H1 & H2 & H3). exact (glue_is_additional_section recs L qc K klt kpos H1 H2 H3). Qed.
+Print Assumptions C11_additional_loop_simulation.
+
+Theorem C11_agree_meaning : forall code m msgN,
+  agree code m msgN <-> (forall t ty, Model.Wrs.has_record msgN (code t) ty = LookupV1.has_record m t ty).
+Proof. intros. apply iff_refl. Qed.
+Print Assumptions C11_agree_meaning.
+
+(* non-vacuity, on the referral of C11_referral_glue_example (values in Proofs/LinkWrsGlueExample.v): two targets;
+   the loop over the coded message returns one record - candidate 0 of the A pick of a.s.z. - and that is the realised
+   additional section *)
+Example C11_referral_additional_section_example :
+  gtriples g_recs e_L 1 N rk_lt rk_pos draw_key (e_dr sec_ex) g_m0 g_ts = g_tr /\
+  fst (Model.Wrs.additional_section rk_lt rk_pos (msg_code gcode g_m0)
+         (trows g_recs e_L 1 N draw_key gcode (e_dr sec_ex) g_m0 g_ts)) = (map (enc gcode) g_tr, false) /\
+  c_ex g_y = map (triple_rr 1) g_tr.
+Proof. exact (conj (proj1 (proj2 referral_additional_section_example))
+               (conj (proj1 (proj2 (proj2 referral_additional_section_example)))
+                     (proj1 (proj2 (proj2 (proj2 referral_additional_section_example)))))). Qed.
+Print Assumptions C11_referral_additional_section_example.
